@@ -620,7 +620,7 @@ theorem runF_of_not_refused {cfg : Cfg} {flt : Faults} {scan : List SEntry} {dst
 
 theorem runF_refused_iff {cfg : Cfg} {flt : Faults} {scan : List SEntry} {dst : Map DNode} {n : Nat} :
     (runF cfg flt scan dst n).refused =
-      guardRefuses cfg ((plan cfg scan dst).filter (·.act == .delete)).length dst.length := by
+      guardRefuses cfg ((plan cfg scan dst).filter (·.act == .delete)).length (destCount dst) := by
   unfold runF
   simp only
   split
